@@ -475,8 +475,10 @@ class Savable:
 
     @classmethod
     def auto_persist(cls, *members: str) -> None:
-        if cls._auto_persist is None:
-            cls._auto_persist = set()
+        if '_auto_persist' not in cls.__dict__:
+            # Start from a copy of what the base classes declare: their set must not be extended with members of this class
+            cls._auto_persist = set(cls._auto_persist or ())
+        assert cls._auto_persist is not None  # required for type checking
         cls._auto_persist.update(members)
 
     @classmethod
